@@ -81,7 +81,7 @@ SUPPRESSIONS = [
         for exc_ in ("asyncio.exceptions.IncompleteReadError", "builtins.OSError", "builtins.ValueError")
     ],
     Suppression(
-        "aiomysensors.transport.mqtt.MQTTTransport.read",
+        "aiomysensors.transport.mqtt.*",  # read() of the transport, or of the base class that owns the queue
         r"self\._incoming_messages\.task_done\(\)$",
         S.VE,
         "task_done() directly follows exactly one successful get() on the same queue in the same function",
@@ -118,6 +118,25 @@ SUPPRESSIONS = [
         "A4",
     ),
 ]
+
+
+_CMP_CACHE: dict = {}
+
+
+def _cross_module_private(f: FuncInfo):
+    """Selector for sa/inline.py: module-level functions of another module that are private to the package (a
+    private name, or any function of a module whose name starts with an underscore)."""
+    m = f.module
+    sel = _CMP_CACHE.get(m.name)
+    if sel is None:
+
+        def sel(h, m=m):
+            if h.module is m or h.cls is not None or h.name.startswith("__"):
+                return False
+            return h.name.startswith("_") or h.module.name.rsplit(".", 1)[-1].startswith("_")
+
+        _CMP_CACHE[m.name] = sel
+    return sel
 
 
 def has_await_node(node: ast.AST) -> bool:
@@ -162,7 +181,19 @@ class EEA:
         return base in self.mro(exc)
 
     def site(self, fr: Frame, node: ast.AST, kind: str, text: str | None = None) -> Site:
-        return Site(fr.module.relpath, getattr(node, "lineno", 0), fr.func.fq, text if text is not None else norm(node)[:160], kind)
+        # a statement of a helper written out into this frame's function is located in the file it was written in
+        return Site(self.prog.origin(fr.module, node).relpath, getattr(node, "lineno", 0), fr.func.fq, text if text is not None else norm(node)[:160], kind)
+
+    def _written_out(self, f: FuncInfo) -> FuncInfo:
+        """f with the private helpers it calls from *other* modules written out (sa/inline.py): a helper that moved
+        into a private module of the package (`_util.py`) is analysed in the context of its call - argument shapes,
+        guard facts and triaged constructs of the caller keep applying.  Helpers of the same module stay calls
+        (analysed as frames of their own)."""
+        from .inline import inline
+
+        if getattr(f, "original", None) is not None:
+            return f
+        return inline(self, f, _cross_module_private(f))
 
     def _one(self, exc: str, site: Site, fr: Frame) -> dict:
         if exc in S.BASE_ONLY:
@@ -192,6 +223,11 @@ class EEA:
         self.in_progress.add(key)
         try:
             res: dict = {}
+            fi = self._written_out(fr.func)
+            if fi is not fr.func:
+                import dataclasses
+
+                fr = dataclasses.replace(fr, callee=dataclasses.replace(fr.callee, func=fi))
             for _ in range(6):
                 self.recursive_hit.discard(key)
                 self.memo[key] = res
@@ -241,7 +277,7 @@ class EEA:
     # premises ---------------------------------------------------------
 
     def _premise_topic_levels_len(self, site: Site) -> bool:
-        f = self.prog.func(site.func)
+        f = self._written_out(self.prog.func(site.func))  # helpers of private modules written out, as in the analysis
         la = self.I.local_assigns(f).get("topic_levels") or []
         if len(la) != 1 or not isinstance(la[0], ast.Call):
             return False
@@ -286,7 +322,7 @@ class EEA:
     def _premise_consumed_in_limit_handler(self, site: Site) -> bool:
         """`<R>.readexactly(<e>.consumed)` sits in `except ... LimitOverrunError as <e>` of a try whose body awaits
         `<R>.readuntil(...)`, with no suspension point before it in the handler."""
-        f = self.prog.func(site.func)
+        f = self._written_out(self.prog.func(site.func))  # helpers of private modules written out, as in the analysis
         for n in self.I.own_nodes(f):
             if not (isinstance(n, ast.Call) and n.lineno == site.line and isinstance(n.func, ast.Attribute) and n.func.attr == "readexactly" and len(n.args) == 1):
                 continue
@@ -354,7 +390,7 @@ class EEA:
         return False
 
     def _premise_task_done_follows_get(self, site: Site) -> bool:
-        f = self.prog.func(site.func)
+        f = self._written_out(self.prog.func(site.func))  # helpers of private modules written out, as in the analysis
         body = f.node.body
         stmts = [s for s in body if not (isinstance(s, ast.Expr) and isinstance(s.value, ast.Constant))]
         if len(stmts) < 2:
@@ -376,7 +412,7 @@ class EEA:
         return out
 
     def _premise_received_message_invariant(self, site: Site) -> bool:
-        f = self.prog.func(site.func)
+        f = self._written_out(self.prog.func(site.func))  # helpers of private modules written out, as in the analysis
         # path condition: under the invariant (ERROR items carry an error, MESSAGE items carry a message) no path
         # reaches the raise - whatever the shape of the branches
         from .cfg import CFG
@@ -425,21 +461,66 @@ class EEA:
         sites = self.calls_index().get(cls.obj.fq, [])
         if not sites:
             return False
-        for g, call in sites:
-            kws = {kw.arg: kw.value for kw in call.keywords}
-            if call.args or "message_type" not in kws:
+        def check(kws: dict) -> bool:
+            """kws: field -> (module, expression)"""
+            if "message_type" not in kws:
                 return False
-            mt = norm(kws["message_type"])
+            mt = norm(kws["message_type"][1])
             need = "error" if mt.endswith(".ERROR") else "message" if mt.endswith(".MESSAGE") else None
             if need is None or need not in kws:
                 return False
-            t = self.prog.type_of(g.module, kws[need]) or ""
-            if not t or "None" in t or t == "Any":
+            m_, e_ = kws[need]
+            t = self.prog.type_of(m_, e_) or ""
+            return bool(t) and "None" not in t and t != "Any"
+
+        for g, call in sites:
+            if call.args:
+                return False
+            kws = {kw.arg: (g.module, kw.value) for kw in call.keywords if kw.arg}
+            pnames = {p for p in g.params if p not in ("self", "cls")}
+            through = {k: v[1].id for k, v in kws.items() if isinstance(v[1], ast.Name) and v[1].id in pnames}
+            if not through:
+                if not check(kws):
+                    return False
+                continue
+            # the constructor call sits in a helper that is handed the tag / the values: the invariant is checked at
+            # every call of that helper, with its parameters replaced by the arguments (a missing one by its default)
+            rebound = {n.id for n in ast.walk(g.node) if isinstance(n, ast.Name) and isinstance(n.ctx, ast.Store)}
+            if set(through.values()) & rebound:
+                return False
+            pos = [p for p in g.positional_params if not (p in ("self", "cls") and g.cls is not None and not g.is_staticmethod())]
+            n_calls = 0
+            for h in self.prog.all_functions():
+                for c in self.I.own_nodes(h):
+                    if not isinstance(c, ast.Call) or h is g:
+                        continue
+                    fn = c.func
+                    nm = fn.attr if isinstance(fn, ast.Attribute) else fn.id if isinstance(fn, ast.Name) else None
+                    if nm != g.name:
+                        continue
+                    n_calls += 1
+                    if any(isinstance(a, ast.Starred) for a in c.args) or any(kw.arg is None for kw in c.keywords):
+                        return False
+                    bound = {p: (h.module, a) for p, a in zip(pos, c.args)}
+                    bound.update({kw.arg: (h.module, kw.value) for kw in c.keywords})
+                    kws2 = dict(kws)
+                    for fld, p in through.items():
+                        if p in bound:
+                            kws2[fld] = bound[p]
+                        else:
+                            d = g.param_default(p)
+                            if d is None:
+                                return False
+                            kws2[fld] = (g.module, d)
+                    if not check(kws2):
+                        return False
+            refs = sum(1 for h in self.prog.all_functions() for x in self.I.own_nodes(h) if (isinstance(x, ast.Attribute) and x.attr == g.name or isinstance(x, ast.Name) and x.id == g.name) and not (isinstance(self.prog.parents.get(x), ast.Call) and self.prog.parents[x].func is x))
+            if not n_calls or refs:
                 return False
         return True
 
     def _premise_mqtt_connected_typestate(self, site: Site) -> bool:
-        f = self.prog.func(site.func)
+        f = self._written_out(self.prog.func(site.func))  # helpers of private modules written out, as in the analysis
         tests = self._enclosing_if_tests(f, site.line)
         if not tests:
             return False
@@ -473,8 +554,12 @@ class EEA:
     def _premise_dumped_line_shape(self, site: Site) -> bool:
         from .rules import codec
 
-        f = self.prog.func(site.func)
-        return codec.bounded_six_way_split(self.I, f) is not None
+        f = self._written_out(self.prog.func(site.func))  # helpers of private modules written out, as in the analysis
+        if codec.bounded_six_way_split(self.I, getattr(f, "original", f)) is not None:
+            return True
+        # the split may live in a helper of a private module that the function calls (written out for the analysis)
+        fi = self._written_out(f)
+        return any(codec.bounded_six_way_split(self.I, h) is not None for h in getattr(fi, "inlined_funcs", []))
 
     # ------------------------------------------------------------------ blocks
 
@@ -636,7 +721,7 @@ class EEA:
             return e, st
         raise AnalysisError(f"statement kind {type(s).__name__} not modelled at {fr.module.relpath}:{s.lineno}")
 
-    def _guard_call_facts(self, value: ast.expr, st: St) -> frozenset:
+    def _guard_call_facts(self, value: ast.expr, st: St, _depth: int = 0) -> frozenset:
         """`helper(args)` where helper's body is `if <k> not in <d>: raise ...` (a membership guard extracted into
         a function): after the call returned normally `<k> in <d>` holds, with the helper's parameters replaced
         by the arguments and self/cls by the receiver."""
@@ -658,14 +743,21 @@ class EEA:
         if body and isinstance(body[0], ast.Expr) and isinstance(body[0].value, ast.Constant):
             body = body[1:]
         guards = []
+        nested: list = []
         for b in body:
             if isinstance(b, ast.If) and not b.orelse and b.body and isinstance(b.body[-1], ast.Raise) and isinstance(b.test, ast.Compare) and len(b.test.ops) == 1 and isinstance(b.test.ops[0], ast.NotIn):
                 guards.append((b.test.left, b.test.comparators[0]))
             elif isinstance(b, ast.Return) and (b.value is None or isinstance(b.value, ast.Constant)):
                 continue
+            elif isinstance(b, ast.Expr) and isinstance(b.value, ast.Call) and _depth < 3:
+                # a guard helper that first calls another guard helper (require_child -> require_node)
+                sub_facts = self._guard_call_facts(b.value, St(Frame(self.I.make_callee(h, h.cls), fr.V, (), frozenset())), _depth + 1)
+                if not sub_facts:
+                    return frozenset()
+                nested.extend(sub_facts)
             else:
                 return frozenset()  # anything else could change the containers again
-        if not guards:
+        if not guards and not nested:
             return frozenset()
         params = list(h.positional_params)
         sub: dict[str, ast.expr] = {}
@@ -685,6 +777,16 @@ class EEA:
         out = set()
         for k, d in guards:
             k2, d2 = _Sub().visit(copy.deepcopy(k)), _Sub().visit(copy.deepcopy(d))
+            out.add(("in", norm(k2), norm(d2)))
+        for fact in nested:
+            # facts of the inner helper are phrased in this helper's parameters: rename them to the arguments
+            if fact[0] != "in":
+                continue
+            try:
+                k2 = _Sub().visit(ast.parse(fact[1], mode="eval").body)
+                d2 = _Sub().visit(ast.parse(fact[2], mode="eval").body)
+            except SyntaxError:
+                continue
             out.add(("in", norm(k2), norm(d2)))
         return frozenset(out)
 
@@ -890,6 +992,11 @@ class EEA:
                     elif isinstance(op, (ast.Is, ast.Eq)) and is_none:
                         neg.add(fact)
             return frozenset(pos), frozenset(neg)
+        if isinstance(test, ast.Call) and isinstance(test.func, ast.Attribute) and test.func.attr == "isdecimal" and not test.args and not test.keywords:
+            rt = self.prog.type_of(st.fr.module, test.func.value) or ""
+            if rt.rsplit(".", 1)[-1] == "str":
+                pos.add(("decimal", norm(test.func.value)))
+            return frozenset(pos), frozenset(neg)
         if isinstance(test, ast.Call) and isinstance(test.func, ast.Name) and test.func.id == "isinstance" and len(test.args) == 2:
             ty = norm(test.args[1])
             if ty in ("dict", "Mapping", "(dict, Mapping)", "(Mapping, dict)", "MutableMapping", "collections.abc.Mapping"):
@@ -940,6 +1047,13 @@ class EEA:
         if isinstance(s, ast.AsyncFor):
             base = it_t.split("[")[0]
             nm = f"{base}.__anext__"
+            if nm not in S.SUMMARIES and isinstance(s.iter, ast.Attribute):
+                # an iterator handed out by an object that is typed with a repository Protocol: the iterator of the
+                # class that implements it (Program.protocol_impl)
+                rt = (self.prog.type_of(fr.module, s.iter.value) or "").replace(" | None", "").replace("Union[", "").split("[")[0].strip()
+                impl = self.prog.protocol_impl().get(rt)
+                if impl and f"{impl}.{s.iter.attr}.__anext__" in S.SUMMARIES:
+                    nm = f"{impl}.{s.iter.attr}.__anext__"
             sm = S.SUMMARIES.get(nm)
             if sm is None:
                 self.missing_summaries.setdefault(nm, f"{fr.module.relpath}:{s.lineno}")
@@ -1689,7 +1803,9 @@ class EEA:
             la = self.I.local_assigns(f).get(it.id) or []
             if len(la) == 1 and isinstance(la[0], ast.expr):
                 return self.min_count_elems(f, la[0], ch, depth + 1)
-            return 0
+            if la:
+                return 0
+            # not a local: a module-level constant (below)
         if isinstance(it, (ast.GeneratorExp, ast.ListComp)) and len(it.generators) == 1:
             return self.min_count(f, it.elt, ch, depth + 1)
         # a constant sequence of strings kept in a module constant / a field of a record constant
@@ -2139,6 +2255,13 @@ class EEA:
             if ("nonempty", a) in st.facts:
                 self.discharged.append({"site": self.site(fr, e, "call").loc(), "what": norm(e), "by": f"non-empty guard on {a}"})
                 return True
+        if exc == "builtins.RuntimeError" and name in ("_asyncio.get_running_loop", "asyncio.events.get_running_loop", "_asyncio.get_event_loop", "_asyncio.current_task", "asyncio.tasks.current_task") and fr.func.is_async:
+            return True  # the body of a coroutine only ever runs inside a running loop
+        if name == "builtins.int" and len(e.args) == 1 and not e.keywords and ("decimal", norm(e.args[0])) in st.facts:
+            # str.isdecimal() is true exactly for non-empty strings of Unicode decimal digits (category Nd), all of
+            # which int() converts (isdigit / isnumeric also accept superscripts and fractions, which it does not)
+            self.discharged.append({"site": self.site(fr, e, "call").loc(), "what": norm(e), "by": f"`{norm(e.args[0])}.isdecimal()` guard dominates"})
+            return True
         if name == "builtins.next" and len(e.args) == 2:
             return True
         if name == "builtins.dict.pop" and len(e.args) == 1 and isinstance(e.func, ast.Attribute):
